@@ -109,3 +109,71 @@ func init() {
 		return notHandled
 	}
 }
+
+func init() {
+	// maps.clone (linked to the runtime): a shallow copy of the map; maps.Clone calls it after a nil test.
+	intrinsics["maps.clone"] = func(m *Machine, fr *frame, fn *ssa.Function, a []Value) Value {
+		var src *Map
+		switch x := a[0].(type) {
+		case *Map:
+			src = x
+		case Iface:
+			src, _ = x.V.(*Map)
+		}
+		if src == nil {
+			return a[0]
+		}
+		if src.wild != nil {
+			unsupported("maps.Clone of a stub map")
+		}
+		n := newMap()
+		for i := range src.keys {
+			if !src.live[i] {
+				continue
+			}
+			n.keys = append(n.keys, copyVal(src.keys[i]))
+			n.vals = append(n.vals, copyVal(src.vals[i]))
+			n.live = append(n.live, true)
+			if k, ok := hashKey(n.keys[len(n.keys)-1]); ok {
+				n.idx[k] = len(n.keys) - 1
+			}
+			n.n++
+		}
+		if _, isIface := a[0].(Iface); isIface {
+			return Iface{T: a[0].(Iface).T, V: n}
+		}
+		return n
+	}
+}
+
+func init() {
+	// sort.Slice / sort.SliceStable go through reflectlite; for <= 12 elements both are the insertion sort below
+	// (pdqsort's small-slice case and stable's block size 20), which is executed with the caller's less function.
+	sortSlice := func(limit int) intrinsic {
+		return func(m *Machine, fr *frame, fn *ssa.Function, a []Value) Value {
+			i, ok := a[0].(Iface)
+			if !ok || i.T == nil {
+				unsupported("%s of a non-slice", fn.Name())
+			}
+			sl, ok := i.V.([]Value)
+			if !ok {
+				unsupported("%s of %T", fn.Name(), i.V)
+			}
+			if len(sl) > limit {
+				unsupported("%s of more than %d elements", fn.Name(), limit)
+			}
+			for x := 1; x < len(sl); x++ {
+				for y := x; y > 0; y-- {
+					lt := m.callValue(fr, a[1], []Value{Int{V: uint64(y)}, Int{V: uint64(y - 1)}}).(Bool)
+					if !m.branchIn(fr, lt) {
+						break
+					}
+					sl[y], sl[y-1] = sl[y-1], sl[y]
+				}
+			}
+			return nil
+		}
+	}
+	intrinsics["sort.Slice"] = sortSlice(12)
+	intrinsics["sort.SliceStable"] = sortSlice(20)
+}
